@@ -25,7 +25,7 @@ from ..lib_callenv import lay, callenv, bits
 
 S = 10**6
 HALS_CAP = 2000          # sweeps when not in exact=True mode (the solver's own stopping rule never fires, see report)
-FISTA_CAP = 5000
+FISTA_CAP = 2000         # iterations (converged long before: rate ~ 1 - 1/sqrt(cond), cond <= 34 / 60)
 VARIANTS = [("hals", "cold"), ("hals", "ones"), ("hals", "exact"),
             ("hals", "nzr"), ("hals", "eps"), ("hals", "subopt_a"), ("hals", "trunc"),       # option / chained variants
             ("hals", "far4"), ("hals", "far5"), ("hals", "farc"),                            # legal starts FAR from the solution
@@ -183,7 +183,7 @@ def _run(case, G, B, start, n_iter=None, use_cb=True):
         tol = 0.0 if variant == "tol0" else 1e-16
         with callenv(err, ERRSTATE_KEYS):
             out = fista(Bs, Gs, x=st, sparsity_coef=l1, ridge_coef=l2, tol=tol,
-                        n_iter_max=n_iter if n_iter is not None else case.get("cap", FISTA_CAP),
+                        n_iter_max=n_iter if n_iter is not None else min(case.get("cap", FISTA_CAP), FISTA_CAP),
                         epsilon=eps if case.get("ep", 0) else 1e-8 * xs)    # the documented default floor, in the units of x
     elif solver == "active_set":
         cols = []
@@ -345,9 +345,14 @@ def build_cases(chk, cfgs, thorough):
         return (0, 0) if rng.random() < 0.4 else (rng.choice(MAGS), rng.choice(MAGS))
 
     def draw_env():
-        """memory layout of the array arguments and caller-side error settings of one call"""
-        return {"layout": "C" if rng.random() < 0.5 else rng.choice(("F", "strided", "readonly")),
-                "err": "default" if rng.random() < 0.6 else rng.choice(("ignore", "raise", "warnerr"))}
+        """memory layout of the array arguments and caller-side error settings of one call: every value of each dimension
+        occurs, the two are not crossed (a non-default layout comes with the default error state and vice versa)"""
+        r = rng.random()
+        if r < 0.5:
+            return {"layout": "C", "err": "default"}
+        if r < 0.75:
+            return {"layout": rng.choice(("F", "strided", "readonly")), "err": "default"}
+        return {"layout": "C", "err": rng.choice(("ignore", "raise", "warnerr"))}
 
     def draw_units():
         """(dtype of UtU / UtM, sa, sb): a quarter of the problems are posed with integer-typed normal equations"""
